@@ -26,6 +26,9 @@ pub enum S {
     IfZ(Rc<P>, Rc<S>, Rc<S>),
     Exit(Rc<P>),
     Call(Rc<P>, Rc<P>, Rc<C>),
+    /// call of the helper `h(x: prd i64, j: cns Fun2)`: a consumer ARGUMENT at a codata type (a
+    /// destructor with non-value arguments in argument position)
+    CallH(Rc<P>, Rc<C>),
 }
 #[derive(Clone, Debug)]
 pub enum P {
@@ -162,6 +165,20 @@ impl Enum {
                                 out.push(Rc::new(S::Call(x.clone(), y.clone(), k.clone())));
                             }
                         }
+                    }
+                }
+            }
+        }
+        if self.alpha.with_call && self.alpha.types.contains(&T::Fun) && n >= 3 {
+            for a in 1..=n - 2 {
+                let ps = self.prods(T::Int, sc, a);
+                if ps.is_empty() {
+                    continue;
+                }
+                let cs = self.cons(T::Fun, sc, n - 1 - a);
+                for p in ps.iter() {
+                    for c in cs.iter() {
+                        out.push(Rc::new(S::CallH(p.clone(), c.clone())));
                     }
                 }
             }
@@ -332,6 +349,7 @@ pub fn stmt(s: &S) -> Statement {
         S::Print(p, n) => Statement::PrintI64(PrintI64 { newline: true, arg: Rc::new(prod(p)), next: Rc::new(stmt(n)) }),
         S::IfZ(p, a, b) => Statement::IfC(IfC { sort: IfSort::Equal, fst: Rc::new(prod(p)), snd: None, thenc: Rc::new(stmt(a)), elsec: Rc::new(stmt(b)) }),
         S::Exit(p) => Statement::Exit(Exit { arg: Rc::new(prod(p)), ty: Ty::I64 }),
+        S::CallH(a, k) => Statement::Call(Call { name: id("h"), args: Arguments { entries: vec![Argument::Producer(prod(a)), Argument::Consumer(cons(k))] }, ty: Ty::I64 }),
         S::Call(a, b, k) => Statement::Call(Call { name: id("g"), args: Arguments { entries: vec![Argument::Producer(prod(a)), Argument::Producer(prod(b)), Argument::Consumer(cons(k))] }, ty: Ty::I64 }),
     }
 }
@@ -393,6 +411,13 @@ fn helper_g() -> Def {
     Def { name: id("g"), context: TypingContext { bindings: vec![bind("x", Chirality::Prd, T::Int), bind("y", Chirality::Prd, T::Int), bind("k", Chirality::Cns, T::Int)] }, body: stmt(&body) }
 }
 
+/// The helper `h`: it cuts a cocase (which rebinds the parameter name) against its consumer parameter.
+fn helper_h() -> Def {
+    // def h(x: prd i64, j: cns Fun2) { <cocase { ap2(y, x, k) => <y - x | k> } | j> }
+    let body = S::Cut(T::Fun, Rc::new(P::CoCase(1, 0, 0, Rc::new(S::Cut(T::Int, Rc::new(P::Sub(Rc::new(P::Var(1, T::Int)), Rc::new(P::Var(0, T::Int)))), Rc::new(C::Covar(0, T::Int)))))), Rc::new(C::Covar(1, T::Fun)));
+    Def { name: id("h"), context: TypingContext { bindings: vec![bind("x", Chirality::Prd, T::Int), bind("j", Chirality::Cns, T::Fun)] }, body: stmt(&body) }
+}
+
 /// `def main(x: prd i64) { < mu k. BODY | mutilde y. println(y); exit y > }`
 pub fn program(body: &S) -> Prog {
     program_with(body, true)
@@ -415,7 +440,7 @@ pub fn program_with(body: &S, final_print: bool) -> Prog {
         name: id("Opt"),
         xtors: vec![XtorSig { xtor: Data, name: id("No"), args: TypingContext { bindings: vec![] } }, XtorSig { xtor: Data, name: id("Yes"), args: TypingContext { bindings: vec![bind("a", Chirality::Prd, T::Int)] } }],
     };
-    Prog { defs: vec![main, helper_g()], data_types: vec![pair, opt], codata_types: vec![fun2], max_id: 0 }
+    Prog { defs: vec![main, helper_g(), helper_h()], data_types: vec![pair, opt], codata_types: vec![fun2], max_id: 0 }
 }
 
 pub fn initial_scope() -> Scope {
